@@ -299,3 +299,48 @@ def c16_mxe(cfg: int, gs: int, ge: int, plus: bool, u0: int, u1: int, a0: int, a
     """
     return _mxe(cfg, gs, ge, 1 if plus else -1, (u0, u1), (a0, a1), (b0, b1), (d0, d1), ijc, sjc,
                 min_ijc, min_sjc, p)
+
+
+# ------------------------------------------------------------------ A5SS / A3SS with interjacent exons
+def _altss_inter(kind, gs, ge, strand, l0, l1, s, f, e1, e2, k, sjc, min_sjc, p):
+    """long form annotated, k (0..2) further exons between the long exon and the flanking exon;
+    the alternative (short) form joins the short splice site directly to the flanking exon"""
+    vary_right = (kind == 5) == (strand == 1)
+    mid = [e1, e2][:k]
+    if vary_right:
+        short = (l0, s)
+        seq = [l0, s, l1] + [c for e in mid for c in e] + [f[0], f[1]]
+        if not (gs <= l0 and _increasing(seq) and f[1] <= ge):
+            return SKIP
+        long_tx = [(l0, l1)] + mid + [f]
+        short_tx = [short, f]
+    else:
+        short = (s, l1)
+        seq = [f[0], f[1]] + [c for e in mid for c in e] + [l0, s, l1]
+        if not (gs <= f[0] and _increasing(seq) and l1 <= ge):
+            return SKIP
+        long_tx = [f] + mid + [(l0, l1)]
+        short_tx = [f, short]
+    anno = anno_multi(gs, ge, strand, [long_tx])
+    cls = A5SSRecord if kind == 5 else A3SSRecord
+    rec = cls('G1', 'S', 'chr1', l0, l1, short[0], short[1], f[0], f[1], 0, sjc, **TAIL)
+    recs = _run(rec, anno, ge, 1, min_sjc)       # ijc 0 < min_ijc 1: only the short junction counts
+    if sjc < min_sjc:
+        return _judge(recs, gs, ge, strand, {}, -3, p)
+    return _judge(recs, gs, ge, strand, {'T1': (long_tx, short_tx)}, None, p)
+
+
+@cond('C16', bounds='A5SS and A3SS, long form annotated with 0..2 further exons between the long exon and the '
+      'flanking exon; all coordinates symbolic (< 59000), both strands', encodes=ENC, codes=CODES,
+      tokens=True, timeout=600)
+def c16_altss_interjacent(kind5: bool, gs: int, ge: int, plus: bool, l0: int, l1: int, s: int,
+                          f0: int, f1: int, a0: int, a1: int, b0: int, b1: int, k: int, sjc: int,
+                          min_sjc: int, p: int) -> int:
+    """
+    pre: 0 <= gs and ge < 59000
+    pre: 0 <= k <= 2
+    pre: 0 <= sjc and 0 <= min_sjc
+    post: _ >= 0
+    """
+    return _altss_inter(5 if kind5 else 3, gs, ge, 1 if plus else -1, l0, l1, s, (f0, f1), (a0, a1),
+                        (b0, b1), k, sjc, min_sjc, p)
